@@ -262,4 +262,83 @@ theorem sound_hash_upgrade (C : Crypto) (bs : Array Bytes) (wfork : Nat) (Signed
   HashUpgradeSound.hash_upgrade_sound C bs wfork Signed t f pk p hsec u cs' hb hh hs hu (CreateTotal.canon_of_lt _ (by omega)) hcanon hunf hsig hlen
     hsize hwf hb1 hb2 hT hauth hv
 
+/-- **seek section + upgrade** (no block, no hash section): the seek root is `verify_upgrade`'s extra node; the bottom
+    node of the seek section carries the writer's hash, and if its size is the writer's every node of the section is the
+    writer's node -/
+theorem sound_seek_upgrade (C : Crypto) (bs : Array Bytes) (wfork : Nat) (Signed : Bytes → Prop)
+    (t : Tree) (f : File) (pk : Bytes) (p : Proof) (s : Codec.DataSeek) (n0 : Codec.Node) (srest : List Codec.Node) (u : Codec.DataUpgrade) (cs' : Changeset)
+    (hb : p.block = none) (hh : p.hash = none) (hs : p.seek = some s) (hsn : s.nodes = n0 :: srest) (hu : p.upgrade = some u) (hcan : n0.index < 2 ^ 64)
+    (hcanon : ∀ l, t.changeset.roots.getLast? = some l → ∃ d o, l.index = Flat.index d o ∧ d ≤ 64)
+    (hunf : ∀ m sig, C.verify pk m sig = true → Signed m)
+    (hsig : ∀ m, Signed m → ∃ n, n ≤ bs.size ∧ m = RefTree.signableOf C (bs.extract 0 n) wfork)
+    (hlen : ∀ x, (C.tree x).length = 32) (hsize : bs.size < 2 ^ 64) (hwf : wfork < 2 ^ 64)
+    (hb1 : cs'.length < 2 ^ 64) (hb2 : p.fork < 2 ^ 64) (hT : u.start + u.length < 2 ^ 64)
+    (hauth : Sound.StoreAuthentic C bs t f)
+    (hv : t.verifyProof C f p pk = .ok cs') :
+    Sound.Collision C ∨ Sound.TreeCollision C ∨ ∃ d o, n0.index = Flat.index d o
+      ∧ ((n0.hash = (RefTree.node C bs d o).2
+          ∧ (n0.length = (RefTree.node C bs d o).1 → ∀ n ∈ srest, ∃ dn on, n = RefTree.nodeAt C bs dn on))
+        ∨ (n0.hash = (RefTree.node C (bs.extract 0 cs'.length) d o).2
+          ∧ (n0.length = (RefTree.node C (bs.extract 0 cs'.length) d o).1 → ∀ n ∈ srest, ∃ dn on, n = RefTree.nodeAt C (bs.extract 0 cs'.length) dn on))) :=
+  HashUpgradeSound.seek_upgrade_sound C bs wfork Signed t f pk p s n0 srest u cs' hb hh hs hsn hu (CreateTotal.canon_of_lt _ (by omega)) hcanon hunf hsig
+    hlen hsize hwf hb1 hb2 hT hauth hv
+
+/-- **block + seek + upgrade in one proof**: the block is the writer's, every node of the block section is the writer's,
+    and the seek section is authenticated through its root (`HashUpgradeSound.SecOK`) — with respect to the writer's
+    log, or to its signed prefix of the adopted length when the upgrade consumed the block's root -/
+theorem sound_block_seek_upgrade (C : Crypto) (bs : Array Bytes) (wfork : Nat) (Signed : Bytes → Prop)
+    (t : Tree) (f : File) (pk : Bytes) (p : Proof) (b : Codec.DataBlock) (s : Codec.DataSeek) (n0 : Codec.Node) (srest : List Codec.Node)
+    (u : Codec.DataUpgrade) (cs' : Changeset)
+    (hb : p.block = some b) (hs : p.seek = some s) (hsn : s.nodes = n0 :: srest) (hu : p.upgrade = some u) (hcan : n0.index < 2 ^ 64)
+    (hcanon : ∀ l, t.changeset.roots.getLast? = some l → ∃ d o, l.index = Flat.index d o ∧ d ≤ 64)
+    (hunf : ∀ m sig, C.verify pk m sig = true → Signed m)
+    (hsig : ∀ m, Signed m → ∃ n, n ≤ bs.size ∧ m = RefTree.signableOf C (bs.extract 0 n) wfork)
+    (hlen : ∀ x, (C.tree x).length = 32) (hsize : bs.size < 2 ^ 64) (hwf : wfork < 2 ^ 64)
+    (hb1 : cs'.length < 2 ^ 64) (hb2 : p.fork < 2 ^ 64) (hT : u.start + u.length < 2 ^ 64)
+    (hauth : Sound.StoreAuthentic C bs t f)
+    (hv : t.verifyProof C f p pk = .ok cs') :
+    Sound.Collision C ∨ Sound.TreeCollision C
+      ∨ (b.value = bs.getD b.index [] ∧ (∀ n ∈ b.nodes, ∃ dn on, n = RefTree.nodeAt C bs dn on)
+          ∧ ∃ d o, n0.index = Flat.index d o ∧ n0.hash = (RefTree.node C bs d o).2
+            ∧ (n0.length = (RefTree.node C bs d o).1 → ∀ n ∈ srest, ∃ dn on, n = RefTree.nodeAt C bs dn on))
+      ∨ (b.value = (bs.extract 0 cs'.length).getD b.index [] ∧ (∀ n ∈ b.nodes, ∃ dn on, n = RefTree.nodeAt C (bs.extract 0 cs'.length) dn on)
+          ∧ ∃ d o, n0.index = Flat.index d o ∧ n0.hash = (RefTree.node C (bs.extract 0 cs'.length) d o).2
+            ∧ (n0.length = (RefTree.node C (bs.extract 0 cs'.length) d o).1 → ∀ n ∈ srest, ∃ dn on, n = RefTree.nodeAt C (bs.extract 0 cs'.length) dn on)) :=
+  HashUpgradeSound.block_seek_upgrade_sound C bs wfork Signed t f pk p b s n0 srest u cs' hb hs hsn hu (CreateTotal.canon_of_lt _ (by omega)) hcanon hunf
+    hsig hlen hsize hwf hb1 hb2 hT hauth hv
+
+/-- **hash + seek + upgrade in one proof**: the conclusion of `sound_hash_seek` (`HashUpgradeSound.HSOK`: the requested node
+    carries the writer's hash; if its size is the writer's, the rest of the hash section and the seek root are the
+    writer's, hence the bottom node of the seek section carries the writer's hash, and with its size every seek node is
+    the writer's) with respect to the writer's log, or to its signed prefix of the adopted length when the upgrade
+    consumed the section's root.  With `sound_block`, `sound_upgrade`, `sound_block_upgrade`, `sound_hash`,
+    `sound_block_seek`, `sound_hash_seek`, `sound_hash_upgrade`, `sound_seek_upgrade` and `sound_block_seek_upgrade` this
+    covers every combination of sections `verify_proof` accepts. -/
+theorem sound_hash_seek_upgrade (C : Crypto) (bs : Array Bytes) (wfork : Nat) (Signed : Bytes → Prop)
+    (t : Tree) (f : File) (pk : Bytes) (p : Proof) (hsec : Codec.DataHash) (s : Codec.DataSeek) (m0 : Codec.Node) (hrest : List Codec.Node)
+    (n0 : Codec.Node) (srest : List Codec.Node) (u : Codec.DataUpgrade) (cs' : Changeset)
+    (hb : p.block = none) (hh : p.hash = some hsec) (hhn : hsec.nodes = m0 :: hrest) (hs : p.seek = some s) (hsn : s.nodes = n0 :: srest)
+    (hu : p.upgrade = some u) (hcan : n0.index < 2 ^ 64) (hcanh : hsec.index < 2 ^ 64)
+    (hcanon : ∀ l, t.changeset.roots.getLast? = some l → ∃ d o, l.index = Flat.index d o ∧ d ≤ 64)
+    (hunf : ∀ m sig, C.verify pk m sig = true → Signed m)
+    (hsig : ∀ m, Signed m → ∃ n, n ≤ bs.size ∧ m = RefTree.signableOf C (bs.extract 0 n) wfork)
+    (hlen : ∀ x, (C.tree x).length = 32) (hsize : bs.size < 2 ^ 64) (hwf : wfork < 2 ^ 64)
+    (hb1 : cs'.length < 2 ^ 64) (hb2 : p.fork < 2 ^ 64) (hT : u.start + u.length < 2 ^ 64)
+    (hauth : Sound.StoreAuthentic C bs t f)
+    (hv : t.verifyProof C f p pk = .ok cs') :
+    Sound.Collision C ∨ Sound.TreeCollision C ∨ HashUpgradeSound.HSOK C bs hsec m0 hrest n0 srest
+      ∨ HashUpgradeSound.HSOK C (bs.extract 0 cs'.length) hsec m0 hrest n0 srest :=
+  HashUpgradeSound.hash_seek_upgrade_sound C bs wfork Signed t f pk p hsec s m0 hrest n0 srest u cs' hb hh hhn hs hsn hu
+    (CreateTotal.canon_of_lt _ (by omega)) (CreateTotal.canon_of_lt _ (by omega)) hcanon hunf hsig hlen hsize hwf hb1 hb2 hT hauth hv
+
+/-- `HSOK` is the conclusion of `sound_hash_seek` -/
+example (C : Crypto) (B : Array Bytes) (hsec : Codec.DataHash) (m0 : Codec.Node) (hrest : List Codec.Node) (n0 : Codec.Node) (srest : List Codec.Node) :
+    HashUpgradeSound.HSOK C B hsec m0 hrest n0 srest ↔ ∃ dh oh d o, hsec.index = Flat.index dh oh ∧ n0.index = Flat.index d o ∧
+      ((∃ sroot : Codec.Node, sroot.index = hsec.index ∧ sroot.hash = (RefTree.node C B dh oh).2 ∧ n0.hash = (RefTree.node C B d o).2
+          ∧ (n0.length = (RefTree.node C B d o).1 → ∀ n ∈ srest, ∃ dn on, n = RefTree.nodeAt C B dn on))
+        ∨ (m0.index = hsec.index ∧ m0.hash = (RefTree.node C B dh oh).2
+          ∧ (m0.length = (RefTree.node C B dh oh).1 → (∀ n ∈ hrest, ∃ dn on, n = RefTree.nodeAt C B dn on)
+              ∧ (Sound.Collision C ∨ (n0.hash = (RefTree.node C B d o).2
+                ∧ (n0.length = (RefTree.node C B d o).1 → ∀ n ∈ srest, ∃ dn on, n = RefTree.nodeAt C B dn on)))))) := Iff.rfl
+
 end HC.C04
